@@ -191,7 +191,7 @@ fn run(ctx: &Ctx, env: &Env) -> Stats {
         }
     }
     // random histories
-    let n_rand = ctx.t(40_000u64, 1_500_000);
+    let n_rand = ctx.t(40_000u64, 4_000_000);
     let max_ops = ctx.t(30usize, 150);
     for j in 0..16 {
         jobs.push(Box::new(move |ctx: &Ctx| {
